@@ -115,6 +115,13 @@ func TestVerifC19(t *testing.T) {
 		}
 		rnd := verifrt.NewRand(verifrt.Seed(), fmt.Sprintf("%s/%d", check, i))
 		home, _ := os.MkdirTemp(base, "h")
+		if rnd.Intn(3) == 0 {
+			// the user's configuration directory has an unusual but ordinary name
+			// (what the commands do must not depend on it)
+			home = filepath.Join(home, verifrt.Pick(rnd, []string{"config [work]", "conf[0-9]", "back\\slash", "st*r", "qu?stion", "sp ace", "ünï", "{a,b}", "%41", "-dash", "a'b"}))
+			os.MkdirAll(home, 0o777)
+			res.Hit("unusual-config-dir-name")
+		}
 		tdir := filepath.Join(home, "go", "telemetry")
 		os.MkdirAll(tdir, 0o777)
 		local, upload := filepath.Join(tdir, "local"), filepath.Join(tdir, "upload")
@@ -158,6 +165,8 @@ func TestVerifC19(t *testing.T) {
 			}
 		}
 		mk(tdir, []string{"foreign.txt", "x.json", "y.v1.count"}, 0.4)
+		// neighbours of the mode file with names a careless implementation might use as scratch files
+		mk(tdir, []string{"mode.tmp", "mode~", "mode.bak", ".mode.tmp", "mode.lock", "mode.new", "mode.old", "mode.json"}, 0.25)
 		switch rnd.Intn(10) {
 		case 0: // missing
 		case 1:
@@ -352,7 +361,7 @@ func TestVerifC19(t *testing.T) {
 		}
 		os.RemoveAll(home)
 	}
-	res.Require("strace-witness", "syscall-on-permitted-target:clean", "syscall-on-permitted-target:on", "clean-checked", "mode-already-set", "mode-changed", "mode-shrinks", "cmd:env")
+	res.Require("unusual-config-dir-name", "strace-witness", "syscall-on-permitted-target:clean", "syscall-on-permitted-target:on", "clean-checked", "mode-already-set", "mode-changed", "mode-shrinks", "cmd:env")
 	if _, err := os.Stat("/usr/share/zoneinfo/Pacific/Kiritimati"); err == nil {
 		res.Require("zone-with-other-date")
 	}
